@@ -88,7 +88,10 @@ def run(prop, tier, seed, replay=None):
     wd = vlib.scratch("verif-rt-")
     if replay:
         meta = json.load(open(os.path.join(replay, "meta.json")))
-        jobs = [(meta["seed"], meta["history"] + 1, meta.get("events", 70), meta["history"])]
+        if meta["seed"] == "exh":
+            jobs = [("exhreplay", meta["exh_seed"], meta["exh"], None)]
+        else:
+            jobs = [(meta["seed"], meta["history"] + 1, meta.get("events", 70), meta["history"])]
     elif tier == "quick":
         jobs = [(seed * 100 + i, 30, 70, None) for i in range(8)]
     else:
@@ -100,6 +103,15 @@ def run(prop, tier, seed, replay=None):
 
     def one(job):
         s, n, events, only = job
+        if s == "exhreplay":
+            out = os.path.join(wd, "trace-exhreplay.ndjson")
+            rc, so, se = vlib.run_driver(binary, ["-seed", n, "-exhnosec=%s" % ("true" if events["nosec"] else "false"), "-exhpath", events["path"],
+                                                  "-exhev", events["ev"], "-out", out], timeout=600)
+            if rc != 0:
+                raise vlib.Inconclusive("replay of one exhaustive-exploration transition failed (rc=%s): %s" % (rc, (se or "")[-2000:]))
+            st = json.loads(so.strip().splitlines()[-1])
+            tv = vlib.validate_trace("Trace_RoutingTable", ("Trace_RoutingTable_k2.cfg", "Trace_RoutingTable_k2_relaxed.cfg"), out, INV_PROPS, timeout=600)
+            return "exh", out, st, tv, events
         if s == "exh":
             out = os.path.join(wd, "trace-exh.ndjson")
             rc, so, se = vlib.run_driver(binary, ["-exh", events[0], "-exhmax", events[1], "-seed", n, "-out", out], timeout=3000)
@@ -168,9 +180,13 @@ def run(prop, tier, seed, replay=None):
                 log("  note: %s (%s) violated in seed %s history %s; not this property" % (f["name"], ",".join(f["props"]), s, f["seg"]))
                 continue
             segl = [x for x in lines if vlib.seg_of(x) == f["seg"]]
+            meta = dict(property=prop, invariant=f["name"], seed=s, history=f["seg"], events=nev, line=f["line"][:2000])
+            if s == "exh" and segl:
+                h0 = json.loads(segl[0])
+                meta.update(exh_seed=seed if not replay else json.load(open(os.path.join(replay, "meta.json"))).get("exh_seed", seed),
+                            exh=dict(nosec=h0.get("nosec", True), path=h0.get("path", "[]"), ev=h0.get("ev", "")))
             rp = vlib.save_replay(prop, "%s-%s-%s" % (f["name"], s, f["seg"]),
-                                  {"trace.ndjson": "\n".join(segl) + "\n", "state.txt": f.get("state") or ""},
-                                  dict(property=prop, invariant=f["name"], seed=s, history=f["seg"], events=nev, line=f["line"][:2000]))
+                                  {"trace.ndjson": "\n".join(segl) + "\n", "state.txt": f.get("state") or ""}, meta)
             try:
                 d = json.loads(f["line"])
                 what = "%s %s" % (d.get("e"), d.get("method", ""))
